@@ -533,11 +533,12 @@ type c12Stats struct {
 	calls       map[string]int64 // per wrapper method (plain and Ctx counted separately)
 	kinds       map[string]int64
 	unsupported map[string]int64
+	cancelled   map[string]int64 // Ctx methods called with a cancelled context
 	sigSkipped  map[string]string
 }
 
 func c12NewStats() *c12Stats {
-	return &c12Stats{calls: map[string]int64{}, kinds: map[string]int64{}, unsupported: map[string]int64{}, sigSkipped: map[string]string{}}
+	return &c12Stats{calls: map[string]int64{}, kinds: map[string]int64{}, unsupported: map[string]int64{}, cancelled: map[string]int64{}, sigSkipped: map[string]string{}}
 }
 
 type c12Hist struct {
@@ -669,6 +670,7 @@ func (h *c12Hist) step(e *c12Entry, form c12Form, cancelled bool) bool {
 	h.st.kinds["command_pairs"]++
 	if cancelled {
 		h.st.kinds["ctx_cancelled_calls"]++
+		h.st.cancelled[name]++
 	}
 
 	base := strings.TrimSuffix(name, "Ctx") // one signature per method; the form is in the witness
